@@ -37,13 +37,18 @@ MANIFEST = dict(
          "with neural flows, with/without saved density tables; iteration-, time- and training-triggered checkpoints) against the "
          "sampler obtained through FlowSampler(resume=True / resume_data=) with a fresh model; kill/resume chains under a logical "
          "clock (kills raised inside chosen likelihood calls) whose every checkpoint, launch and final result is compared exactly "
-         "with the Lean model and with an independent commit-log oracle; thousands of random histories through the real "
-         "BaseNestedSampler.checkpoint/__getstate__/resume_from_pickled_sampler code against the Lean model.",
+         "with the Lean model and with an independent commit-log oracle; every consume_sample of every launch of the standard chains "
+         "(recorded with harness.c01's wrappers across kills and resumes) is replayed through the C01 Lean model, whose live set must "
+         "chain from step to step and equal the restored live set at every resume point (resume is the identity on the C01 state: "
+         "checked, and proved for the pickled attributes in run_state_survives_checkpoint_resume); the importance-sampler stores are "
+         "checked after every resume and at the end against the C04 predicates (sorted, index sets partition the store, rows attached, "
+         "store = the checkpointed one) and the C03 bookkeeping (harness.c03.oracle_snapshot); thousands of random histories through the "
+         "real BaseNestedSampler.checkpoint/__getstate__/resume_from_pickled_sampler code against the Lean model.",
     note="Pickle/torch.save fidelity is observed, not proved. The logical clock ticks once per likelihood call inside the sampling "
          "loop (wall-clock is never compared). Optimiser state, cached latent-prior samplers and batch size are not in the property's "
          "list and are not restored by nessai (recorded in the evidence). The active-proposal pointer is compared as 'the proposal the "
-         "next draw comes from'. The final traces of the chains are checked against the run invariants directly, not replayed through the "
-         "C01/C04/C05 models. Known findings: repeated history entry after a standard resume, checkpoint_on_training checkpoints written "
+         "next draw comes from'. The C05 result-consistency model is not replayed on the chains (their final results are checked "
+         "against the run invariants directly). Known findings: repeated history entry after a standard resume, checkpoint_on_training checkpoints written "
          "mid-iteration. (Fixed in /repo and now required by the oracle: importance-sampler sampling_time after a resume, "
          "FlowProposal.resume with a NumPy mask / AugmentedFlowProposal.)",
     technique="Lean 4 proof (decide over source-generated tables; induction over histories) + ast translator + real checkpoint/resume round trips and kill chains",
@@ -766,6 +771,9 @@ def chain(ctx, kind, cfg, seed, kills, downs):
     tmp = tempfile.mkdtemp(prefix="c12ch_")
     rec = Recorder()
     time_trigger = cfg.get("time_trigger")
+    steps_rec = None          # harness.c01 recorder: live set before/after, candidates, insertion index of every consume_sample
+    segments = []             # one list of recorded steps per launch
+    written = {}              # importance sampler: the stores as they were when the last checkpoint was written
 
     def hook(obj, filename, when, pre=None):
         if when == "before":
@@ -773,51 +781,201 @@ def chain(ctx, kind, cfg, seed, kills, downs):
         rec.checkpoint(obj, filename)
         if pre:
             rec.mid_ops.add(len(rec.ops) - 1)
+        if kind == "ins":
+            written.clear()
+            written.update(store_image(obj), iteration=int(obj.iteration))
+
+    def launch(kill_at, attempt):
+        rec.launch(kill_at)
+        if steps_rec is not None:
+            steps_rec.steps = []
+            segments.append(steps_rec.steps)
+        model = instrument(base_model(kind, cfg, seed), rec)
+        fs = build_sampler(kind, cfg, seed, model, tmp, resume=True, time_trigger=time_trigger)
+        rec.observe("launch", fs.ns)
+        if kind == "ins" and written and fs.ns.iteration > 0:
+            ins_structure(ctx, fs.ns, {**case, "attempt": attempt}, "resumed", base_model(kind, cfg, seed), written)
+        rec.count = True
+        run_sampler(kind, fs)
+        rec.flush()
+        rec.count = False
+        return fs
 
     final = None
     survived = 0
     try:
         with LogicalTime(), flows_ctx(cfg), DumpHook(hook):
-            np.random.seed(seed)
-            torch.manual_seed(seed)
-            for attempt in range(len(kills) + 1):
-                rec.launch(kills[attempt] if attempt < len(kills) else None)
-                model = instrument(base_model(kind, cfg, seed), rec)
-                try:
-                    fs = build_sampler(kind, cfg, seed, model, tmp, resume=True, time_trigger=time_trigger)
-                    rec.observe("launch", fs.ns)
-                    rec.count = True
-                    run_sampler(kind, fs)
-                    rec.flush()
-                    rec.count = False
-                    final = fs
-                    break
-                except Kill:
-                    survived += 1
-                    rec.killed(downs[attempt])
-                except Exception as e:  # noqa
-                    import traceback
-                    ctx.oracle_fail(f"{sampler_cls}.resume:run-raised",
-                                    f"launch {attempt} of a kill/resume chain raised {type(e).__name__}: {e}",
-                                    {**case, "attempt": attempt, "ops": rec.ops[-12:], "where": traceback.format_exc()[-500:]})
-                    ctx.case(("chain", kind, cfg["name"], seed, tuple(kills)), True, kind=f"chain-{kind}:raised")
-                    return
-            if final is None:
-                # every launch was killed: one more launch without a kill
-                rec.launch(None)
-                model = instrument(base_model(kind, cfg, seed), rec)
-                fs = build_sampler(kind, cfg, seed, model, tmp, resume=True, time_trigger=time_trigger)
-                rec.observe("launch", fs.ns)
-                rec.count = True
-                run_sampler(kind, fs)
-                rec.flush()
-                rec.count = False
-                final = fs
+            if kind == "std":
+                from . import c01
+                steps_rec = c01.Recorder(c01._nessai())
+                steps_rec.install()
+            try:
+                np.random.seed(seed)
+                torch.manual_seed(seed)
+                for attempt in range(len(kills) + 2):
+                    try:
+                        # the last launch is never killed
+                        final = launch(kills[attempt] if attempt < len(kills) else None, attempt)
+                        break
+                    except Kill:
+                        survived += 1
+                        rec.killed(downs[attempt])
+                    except Exception as e:  # noqa
+                        import traceback
+                        ctx.oracle_fail(f"{sampler_cls}.resume:run-raised",
+                                        f"launch {attempt} of a kill/resume chain raised {type(e).__name__}: {e}",
+                                        {**case, "attempt": attempt, "ops": rec.ops[-12:], "where": traceback.format_exc()[-500:]})
+                        ctx.case(("chain", kind, cfg["name"], seed, tuple(kills)), True, kind=f"chain-{kind}:raised")
+                        return
+            finally:
+                if steps_rec is not None:
+                    steps_rec.remove()
             ns = final.ns
             rec.observe("final", ns)
-            check_chain(ctx, kind, sampler_cls, rec, ns, case, survived)
+            resumed_mid = check_chain(ctx, kind, sampler_cls, rec, ns, case, survived)
+            if kind == "std":
+                replay_live_set(ctx, segments, ns, case, bool(resumed_mid))
+            else:
+                ins_structure(ctx, ns, case, "finalised", base_model(kind, cfg, seed), written, final=True)
     finally:
         shutil.rmtree(tmp, ignore_errors=True)
+
+
+# ---- the chained standard run through the C01 model -------------------------------------------------
+def replay_live_set(ctx, segments, ns, case, resumed_mid):
+    """every consume_sample of every launch of the chain (recorded with harness.c01's wrappers) is replayed through the
+    C01 Lean model (`ls step`); the model's live set after step k must be the real live set before step k+1, and after a
+    resume the restored live set must be the model's live set at the checkpointed iteration"""
+    from . import c01
+    from numpy.lib.recfunctions import structured_to_unstructured
+    T = c01._nessai()
+    model = make_gauss()
+    names = list(model.names)
+    nlive = int(ns.nlive)
+    case = {k: v for k, v in case.items() if k != "ops"}
+
+    def coords(a):
+        return structured_to_unstructured(np.atleast_1d(a)[names])
+
+    lines, impls, metas = [], [], []
+    for si, steps in enumerate(segments):
+        for st in steps:
+            cdict = {**case, "launch": si, "iteration": st["snap"]["iter"] + 1}
+            c01.oracle_step(ctx, T["np"], model, st["snap"], c01.View(st, nlive), cdict, tag="consume_sample(chain)")
+            line, impl = c01.step_line(T["np"], model, st, nlive)
+            lines.append(line)
+            impls.append(impl)
+            metas.append((si, st, cdict))
+    outs = ctx.model(lines)
+    by_iter = {}          # iteration -> coordinates of the MODEL's live set after that iteration (surviving lineage)
+    surviving = {}        # iteration index -> recorded step of the surviving lineage
+    prev = None
+    nbad = 0
+    for (si, st, cdict), line, mo, io in zip(metas, lines, outs, impls):
+        if mo != io:
+            nbad += 1
+            if nbad <= 5:
+                ctx.disagree("C01 model consume != recorded step of a kill/resume chain", {"line": line[:300], "model": mo[:300], "impl": io[:300], "case": cdict})
+            prev = None
+            continue
+        m = re.match(r"live=\[(.*?)\] i=", mo)
+        ids = [int(t.split(":")[0]) for t in m.group(1).split(",")] if m and m.group(1) else []
+        live0, draws = st["snap"]["live"], st["draws"]
+        model_after = np.concatenate([coords(live0[i]) if i < nlive else coords(draws[i - nlive][0]) for i in ids]) if ids else coords(live0)[:0]
+        it0 = st["snap"]["iter"]
+        first_of_launch = prev is None or prev[0] != si
+        if not first_of_launch and not np.array_equal(prev[1], coords(live0)):
+            ctx.oracle_fail("NestedSampler:between-iterations:untouched",
+                            "the live set before an iteration is not the C01 model's live set after the previous one", cdict)
+        if first_of_launch and si > 0 and it0 > 0:
+            ref = by_iter.get(it0)
+            if ref is None or not np.array_equal(ref, coords(live0)):
+                ctx.oracle_fail(MID_KEY if resumed_mid else "NestedSampler.resume:live-set-not-the-checkpointed-one",
+                                f"after the resume at iteration {it0} the live set is not the C01 model's live set at that iteration "
+                                "(resume is not the identity on the C01 state)", {**cdict, "known_iterations": len(by_iter)})
+        by_iter[st["iter_after"]] = model_after
+        if not np.array_equal(model_after, coords(st["after"])):
+            ctx.disagree("C01 model live set after the step differs from the real one", cdict)
+        surviving[it0] = st
+        prev = (si, model_after)
+        ctx.case(("chain-step", case["cfg"]["name"], case["seed"], tuple(case["kills"]), si, it0), True, None,
+                 kind="chain-step:" + st["proposal"] + (":resumed" if si else ""))
+    # the record of the finished run is the surviving lineage of steps
+    nested = np.array(ns.nested_samples)
+    for it0, st in surviving.items():
+        if it0 >= len(nested) or not np.array_equal(coords(nested[it0]), coords(st["snap"]["live"][0])):
+            ctx.oracle_fail(MID_KEY if resumed_mid else "NestedSampler:resumed-run:recorded-once",
+                            f"nested sample #{it0} of the finished run is not the point the surviving lineage removed at that iteration", case)
+            break
+        if it0 >= len(ns.insertion_indices) or int(ns.insertion_indices[it0]) != st["idx"]:
+            ctx.oracle_fail(MID_KEY if resumed_mid else "NestedSampler:resumed-run:index-recorded-once",
+                            f"insertion index #{it0} of the finished run is not the one recorded at that iteration", case)
+            break
+    if len(surviving) != ns.iteration and not resumed_mid:
+        ctx.oracle_fail("NestedSampler:resumed-run:iterations", f"{len(surviving)} iterations in the surviving lineage, the sampler reports {ns.iteration}", case)
+    ctx.hist["chain steps replayed through the C01 model"] += len(lines)
+    ctx.traces += 1
+
+
+# ---- importance sampler: C04 store invariants and C03 bookkeeping after every resume and at the end ----
+def store_image(ns):
+    out = {}
+    for name in ("training_samples", "iid_samples"):
+        st = getattr(ns, name)
+        if st is None or st.samples is None:
+            out[name] = None
+            continue
+        out[name] = (st.samples.tobytes(), None if st.live_points_indices is None else np.asarray(st.live_points_indices).tobytes(),
+                     np.asarray(st.nested_samples_indices).tobytes(), len(st.samples))
+    return out
+
+
+def ins_structure(ctx, ns, case, tag, plain_model, written, final=False):
+    """C04 predicates (sorted store, strictly increasing index sets that partition it, rows attached) and the C03
+    bookkeeping (weights = fractions of the counts, logW = logU - logQ, Q = mixture of the row, rows = the proposals'
+    densities at the sample) on the real stores — the predicates of harness/c04.Oracle and harness/c03.oracle_snapshot"""
+    from .c03 import snapshot, oracle_snapshot, tilt_density, flog
+    case = {k: v for k, v in case.items() if k != "ops"}
+    site = f"ImportanceNestedSampler:{tag}"
+    names = list(plain_model.names)
+    for name in ("training_samples", "iid_samples"):
+        st = getattr(ns, name)
+        if st is None or st.samples is None:
+            continue
+        s, n = st.samples, len(st.samples)
+        if np.any(np.diff(s["logL"]) < 0):
+            ctx.oracle_fail(site + ":sorted", f"{name}: store not sorted by likelihood", case)
+        lv = [] if st.live_points_indices is None else [int(v) for v in st.live_points_indices]
+        nsi = [int(v) for v in st.nested_samples_indices]
+        if any(b <= a for a, b in zip(lv, lv[1:])) or any(b <= a for a, b in zip(nsi, nsi[1:])):
+            ctx.oracle_fail(site + ":strictly-increasing", f"{name}: index sets not strictly increasing", case)
+        if sorted(lv + nsi) != list(range(n)):
+            ctx.oracle_fail(site + ":partition", f"{name}: live ({len(lv)}) and nested ({len(nsi)}) indices do not partition the {n} samples", case)
+        if st.log_q is None or st.log_q.shape[0] != n:
+            ctx.oracle_fail(site + ":rows", f"{name}: density table has {None if st.log_q is None else st.log_q.shape} rows for {n} samples", case)
+        # resume is the identity on the C04 state; nothing ever leaves the store afterwards
+        img = written.get(name)
+        if img is not None and not final:
+            now = store_image(ns)[name]
+            if now != img:
+                ctx.oracle_fail("ImportanceNestedSampler.resume:store-not-the-checkpointed-one",
+                                f"{name}: samples / live indices / nested indices after the resume differ from those written at iteration "
+                                f"{written.get('iteration')}", case)
+    if not getattr(ns.proposal, "flow", None) or not hasattr(ns.proposal.flow.models[0] if ns.proposal.flow.n_models else None, "c"):
+        lq = None
+    else:
+        level_c = [m.c.numpy().copy() for m in ns.proposal.flow.models]
+
+        def lq(recs, nlev):
+            cols = [np.zeros(len(recs))]
+            for c in level_c:
+                cols.append(np.array([flog(tilt_density(c, [r[n] for n in names])) for r in recs]))
+            return np.stack(cols, axis=1)[:, :nlev]
+    snap = snapshot(ns, tag)
+    nlev = len(snap["weights"])
+    oracle_snapshot(ctx, snap, plain_model, names, {**case, "at": tag, "iteration": snap["iteration"]},
+                    level_logq=(lambda recs: lq(recs, nlev)) if lq else None)
+    ctx.hist[f"ins stores checked ({tag})"] += 1
 
 
 def check_chain(ctx, kind, sampler_cls, rec, ns, case, kills_hit):
@@ -867,11 +1025,13 @@ def check_chain(ctx, kind, sampler_cls, rec, ns, case, kills_hit):
         elif o == "L" and last_c is not None and last_c in rec.mid_ops:
             resumed_mid = True
     invariants(ctx, kind, sampler_cls, ns, case, n_resumes, resumed_mid)
+    rv_resumed_mid = resumed_mid
     ctx.case(("chain", kind, case["cfg"]["name"], case["seed"], tuple(case["kills"])), True,
              {"kind": case["kind"], "cfg": case["cfg"]["name"], "seed": case["seed"], "kills": case["kills"], "downs": case["downs"],
               "kills_hit": kills_hit, "ops": len(ops), "checkpoints": ops.count("C"), "final": rec.obs[-1][2]},
              kind=f"chain-{kind}:kills={kills_hit}")
     ctx.hist["chain checkpoints compared"] += sum(1 for o in rec.obs if o[1] == "checkpoint")
+    return rv_resumed_mid
 
 
 def invariants(ctx, kind, sampler_cls, ns, case, n_resumes, resumed_mid=False):
